@@ -246,8 +246,8 @@ func (w *Worker) c10Compare(c *Case, g *EnvGroup, v c10variant, base, cr *CaseRe
 			break
 		}
 		jr := cr.Insts[i]
-		if ir.Unstable || jr.Unstable {
-			continue
+		if ir.Unstable || jr.Unstable || ir.Ref.Clock || jr.Ref.Clock {
+			continue // incl. programs that read the wall clock: the two notations run at different instants
 		}
 		for b := 0; b < NBackends; b++ {
 			x, y := ir.Out[b], jr.Out[b]
